@@ -887,7 +887,11 @@ func (e *Engine) execSimple(st *State, fr *Frame, in ssa.Instruction, b *ssa.Bas
 	switch x := in.(type) {
 	case *ssa.Alloc:
 		t := resolve(x.Type().(*types.Pointer).Elem(), fr.env)
-		if e.allocIsCell(fr, x) {
+		if at, ok := t.Underlying().(*types.Array); ok {
+			// array objects live in the element heap (they are sliced and indexed like backing arrays)
+			sv := e.makeSlice(st, types.NewSlice(at.Elem()), IntLit(at.Len()), IntLit(at.Len()))
+			fr.regs[x] = Val{T: resolve(x.Type(), fr.env), L: []Term{sv.L[0]}, P: &Loc{Kind: LocArr, Base: sv.L[0], ElemT: resolve(at.Elem(), fr.env), N: int(at.Len()), T: t}}
+		} else if e.allocIsCell(fr, x) {
 			e.cellN++
 			id := e.cellN
 			st.cells[id] = e.zeroVal(t)
@@ -911,6 +915,10 @@ func (e *Engine) execSimple(st *State, fr *Frame, in ssa.Instruction, b *ssa.Bas
 			loc := e.locOfChecked(st, a, pos)
 			v := e.loadLoc(st, loc)
 			v.T = rt
+			if loc.Kind != LocCell {
+				// values held in memory satisfy the representation invariants of their type
+				st.Assume(e.wellFormed(v, st.next))
+			}
 			fr.regs[x] = v
 		case token.NOT:
 			fr.regs[x] = Val{T: rt, L: []Term{Not(a.L[0])}}
@@ -1083,6 +1091,11 @@ func (e *Engine) indexAddr(st *State, fr *Frame, sv Val, iv Val, rt types.Type, 
 		if !ok {
 			panic(unsupported("index address of %s", sv.T))
 		}
+		if sv.P != nil && sv.P.Kind == LocArr {
+			e.obligationPanic(st, "bounds", pos, And(Le(IntLit(0), idx), Lt(idx, IntLit(at.Len()))))
+			et := sv.P.ElemT
+			return Val{T: rt, L: []Term{IntLit(-1)}, P: &Loc{Kind: LocElem, Base: sv.P.Base, Idx: idx, ElemT: et, Off: 0, N: len(e.lay.Leaves(et)), T: et}}
+		}
 		loc := e.locOfChecked(st, sv, pos)
 		e.obligationPanic(st, "bounds", pos, And(Le(IntLit(0), idx), Lt(idx, IntLit(at.Len()))))
 		n := len(e.lay.Leaves(at.Elem()))
@@ -1134,6 +1147,10 @@ func (e *Engine) execSlice(st *State, fr *Frame, x *ssa.Slice, pos string) {
 		lo = e.operand(st, fr, x.Low).L[0]
 	} else {
 		lo = IntLit(0)
+	}
+	if sv.P != nil && sv.P.Kind == LocArr {
+		n := IntLit(int64(sv.P.N))
+		sv = Val{T: types.NewSlice(sv.P.ElemT), L: []Term{sv.P.Base, IntLit(0), n, n}}
 	}
 	switch sv.T.Underlying().(type) {
 	case *types.Slice:
